@@ -9,5 +9,5 @@ git -C $WT apply $SEED/patch.diff || { echo "PATCH DOES NOT APPLY"; exit 9; }
 echo "--- demo on original:"; (cd / && PYTHONPATH=/repo/src timeout 120 /venv/bin/python $SEED/demo.py >/tmp/val_$P.orig.out 2>&1; echo "rc=$?"; tail -2 /tmp/val_$P.orig.out)
 echo "--- demo on changed:"; (cd / && PYTHONPATH=$WT/src timeout 120 /venv/bin/python $SEED/demo.py >/tmp/val_$P.chg.out 2>&1; echo "rc=$?"; tail -2 /tmp/val_$P.chg.out)
 echo "--- tests on changed:"; (cd $WT && env -u PYTHONDONTWRITEBYTECODE PYTHONPATH=$WT/src /venv/bin/python -m pytest -q -p no:cacheprovider $TESTS -q 2>&1 | tail -3)
-echo "--- check on changed:"; (cd /verif && PYVC_EVIDENCE_DIR=/tmp/val_ev ./check $P --src $WT/src 2>&1 | tail -6; echo "check rc=$?")
+echo "--- check on changed:"; (cd /verif && PYVC_EVIDENCE_DIR=/tmp/val_ev ./check $P --src $WT/src >/tmp/val_$P.check.out 2>&1; rc=$?; grep -v "KNOWN-FINDING" /tmp/val_$P.check.out | tail -8; echo "check rc=$rc"; rm -f /tmp/val_$P.check.out)
 git -C /repo worktree remove --force $WT
